@@ -312,6 +312,16 @@ func init() {
 		return L(I(0), L(segs...))
 	}
 
+	// (config n) -> (0 header) | (1): AudioSpecificConfig.Decode then ToAdtsHeader(n)
+	commands["C09_asc_header"] = func(c Val) Val {
+		var asc aac.AudioSpecificConfig
+		if err := asc.Decode(c.At(0).Bytes()); err != nil {
+			return L(I(1))
+		}
+		h := asc.ToAdtsHeader(int(c.At(1).Int()))
+		return L(I(0), B(h[:]))
+	}
+
 	// (profile sidx chan size) -> aac.NewADTSHeader
 	commands["C09_adts"] = func(c Val) Val {
 		h := aac.NewADTSHeader(byte(c.At(0).Int()), byte(c.At(1).Int()), byte(c.At(2).Int()), int(c.At(3).Int()))
